@@ -2,7 +2,8 @@
    decodeHexSize, xorPunchPacket, validPunchPacketType), extras/realm/punch_conn.go
    (AddPunchAttempt, RemovePunchAttempt, ReadFrom, decodeSTUNPacket, decodePunchPacket, emitPunch,
    emitSTUN), punch_engine.go (addrToAddrPort) and extras/realm/server_punch.go (addAttempt,
-   removeAttempt, one iteration of dispatch).  Definitions only.
+   removeAttempt, one iteration of dispatch and its exit on the lifetime context, Respond: the
+   argument checks, the registration, every exit).  Definitions only.
 
    The hash is a Section variable H in the codec and the demultiplexer; the instance tied to the
    code is H := sha256 (lib/Sha256.v), see the definitions at the end of the file.
@@ -265,7 +266,8 @@ Section Codec.
 
   (* ---------- ServerPuncher (server_punch.go) ---------- *)
   Record sstate := mkS { s_conn : dstate;
-                         s_att : list (list byte * list pev) }.   (* attempt id -> its channel *)
+                         s_att : list (list byte * list pev);     (* attempt id -> its channel *)
+                         s_live : bool }.   (* the dispatch goroutine has not yet taken `case <-ctx.Done(): return` *)
 
   Definition att_find (id : list byte) (l : list (list byte * list pev)) : option (list pev) :=
     match find (fun e => bytes_eq (fst e) id) l with Some e => Some (snd e) | None => None end.
@@ -278,6 +280,8 @@ Section Codec.
   | SAdd (id : list byte) (m : rmeta)     (* addAttempt *)
   | SRemove (id : list byte)              (* removeAttempt *)
   | SDispatch                             (* one iteration of dispatch with an event ready *)
+  | SStop                                 (* the lifetime context given to NewServerPuncher is cancelled and
+                                             dispatch returns: it touches neither registry *)
   | SConn (a : action)                    (* anything happening on the PunchPacketConn *)
   | STake (id : list byte).               (* Respond receives from its channel *)
 
@@ -291,30 +295,34 @@ Section Codec.
         | None =>
             r <- step (s_conn s) (AAdd id m) ;;
             match snd r with
-            | OAdd true => Ok (mkS (fst r) ((id, []) :: s_att s), SOAdd true)
-            | _ => Ok (mkS (fst r) (s_att s), SOAdd false)                (* rolled back *)
+            | OAdd true => Ok (mkS (fst r) ((id, []) :: s_att s) (s_live s), SOAdd true)
+            | _ => Ok (mkS (fst r) (s_att s) (s_live s), SOAdd false)     (* rolled back *)
             end
         end
     | SRemove id =>
+        (* p.conn.RemovePunchAttempt(id) unconditionally, then delete(p.attempts, id) *)
         r <- step (s_conn s) (ARemove id) ;;
-        Ok (mkS (fst r) (att_remove id (s_att s)), SONone)
+        Ok (mkS (fst r) (att_remove id (s_att s)) (s_live s), SONone)
     | SDispatch =>
+        if negb (s_live s) then Ok (s, SORouted None)      (* nobody receives from conn.Events() any more *)
+        else
         match d_ev (s_conn s) with
         | [] => Ok (s, SORouted None)
         | ev :: q =>
             let c := mkD (d_reg (s_conn s)) q (d_stun (s_conn s)) (d_cap (s_conn s)) in
             match att_find (e_id ev) (s_att s) with
-            | None => Ok (mkS c (s_att s), SORouted None)
+            | None => Ok (mkS c (s_att s) (s_live s), SORouted None)
             | Some ch =>
                 if Nat.ltb (length ch) defaultServerPunchEventBuffer
-                then Ok (mkS c (att_set (e_id ev) (ch ++ [ev]) (s_att s)), SORouted (Some (e_id ev)))
-                else Ok (mkS c (s_att s), SORouted None)
+                then Ok (mkS c (att_set (e_id ev) (ch ++ [ev]) (s_att s)) (s_live s), SORouted (Some (e_id ev)))
+                else Ok (mkS c (s_att s) (s_live s), SORouted None)
             end
         end
-    | SConn a' => r <- step (s_conn s) a' ;; Ok (mkS (fst r) (s_att s), SOConn (snd r))
+    | SStop => Ok (mkS (s_conn s) (s_att s) false, SONone)
+    | SConn a' => r <- step (s_conn s) a' ;; Ok (mkS (fst r) (s_att s) (s_live s), SOConn (snd r))
     | STake id =>
         match att_find id (s_att s) with
-        | Some (e :: q) => Ok (mkS (s_conn s) (att_set id q (s_att s)), SOTake (Some e))
+        | Some (e :: q) => Ok (mkS (s_conn s) (att_set id q (s_att s)) (s_live s), SOTake (Some e))
         | _ => Ok (s, SOTake None)
         end
     end.
@@ -325,15 +333,80 @@ Section Codec.
     | a :: t => r <- sstep s a ;; r2 <- srun (fst r) t ;; Ok (fst r2, snd r :: snd r2)
     end.
 
-  (* Respond(ctx, attemptID, ..., meta, ...) once its argument checks have passed, as the sequence
-     of atomic sections it contributes to a history of the server: addAttempt(attemptID, meta),
-     then - while it is blocked in its select - whatever else happens on the server (`mid`:
-     datagrams, dispatch iterations, its own receive STake attemptID, other attempts), then the
-     deferred removeAttempt(attemptID).  Both registries are Go maps keyed by the string: the id
-     that is removed is byte for byte the id that was registered (no normalisation of any kind;
-     the caller passes the rendezvous nonce text as it received it). *)
-  Definition respond_trace (id : list byte) (m : rmeta) (mid : list saction) : list saction :=
-    SAdd id m :: mid ++ [SRemove id].
+  (* ---------- ServerPuncher.Respond ---------- *)
+  (* the arguments as far as the registries depend on them *)
+  Record rargs := mkRA { ra_id : list byte;        (* attemptID *)
+                         ra_meta : rmeta;          (* meta *)
+                         ra_ncand : nat;           (* len(candidatePunchAddrs(localAddrs, peerAddrs, family)): oracle *)
+                         ra_timeout : Z;           (* config.Timeout  (time.Duration, ns) *)
+                         ra_interval : Z }.        (* config.Interval (time.Duration, ns) *)
+
+  (* the validation exits, in program order; none of them has touched a registry *)
+  Inductive rerr :=
+  | REId          (* "id is required" *)
+  | REMeta        (* decodePunchMetadata failed *)
+  | RECand        (* "no compatible peer addresses" *)
+  | RETimeout     (* "timeout must not be negative" *)
+  | REInterval.   (* "interval must be positive" *)
+
+  (* Respond up to (not including) p.addAttempt: Ok None = every check passed *)
+  Definition respond_precheck (a : rargs) : Res (option rerr) :=
+    match ra_id a with
+    | [] => Ok (Some REId)
+    | _ =>
+        match decode_meta (ra_meta a) with
+        | Panic n => Panic n
+        | Err _ => Ok (Some REMeta)
+        | Ok _ =>
+            if Nat.eqb (ra_ncand a) 0 then Ok (Some RECand)
+            else
+              let timeout := if (ra_timeout a =? 0)%Z then defaultPunchTimeout else ra_timeout a in
+              if (timeout <? 0)%Z then Ok (Some RETimeout)
+              else
+                let interval := if (ra_interval a =? 0)%Z then defaultPunchInterval else ra_interval a in
+                if (interval <=? 0)%Z then Ok (Some REInterval) else Ok None
+        end
+    end.
+
+  (* which case of the select loop returned *)
+  Inductive wexit :=
+  | WEvent        (* case ev := <-events *)
+  | WTimeout      (* ctx.Done(), DeadlineExceeded: the WithTimeout timer *)
+  | WCancel.      (* ctx.Done(), the caller's context *)
+
+  (* every way Respond returns *)
+  Inductive routcome :=
+  | RoErr (e : rerr)        (* a validation exit: before addAttempt, so before the defer *)
+  | RoDup                   (* addAttempt: the id is in p.attempts ("duplicate id"); returns before the defer *)
+  | RoWait (w : wexit).     (* registered, waited, left the loop through w; the deferred removeAttempt runs *)
+
+  (* the outcome is one the code can take from state s with arguments a (the wait exit is decided
+     by what happens while it waits, not by the state at the call) *)
+  Definition respond_can (s : sstate) (a : rargs) (o : routcome) : Prop :=
+    match o with
+    | RoErr e => respond_precheck a = Ok (Some e)
+    | RoDup => respond_precheck a = Ok None /\ att_find (ra_id a) (s_att s) <> None
+    | RoWait _ => respond_precheck a = Ok None /\ att_find (ra_id a) (s_att s) = None
+    end.
+
+  (* Respond(ctx, attemptID, ..., meta, config) as the sequence of atomic sections it contributes to
+     a history of the server.  A validation exit contributes nothing.  Otherwise addAttempt(attemptID,
+     meta); if that is rejected Respond returns at once (no defer yet).  If it is accepted then -
+     while Respond is blocked in its select - whatever else happens on the server (`mid`: datagrams,
+     dispatch iterations, other attempts, and SStop: the puncher's lifetime context may be cancelled
+     at any point, the Respond context is the caller's and need not derive from it), then its own
+     receive if it leaves through `case ev := <-events`, then the deferred removeAttempt(attemptID).
+     Both registries are Go maps keyed by the string: the id that is removed is byte for byte the id
+     that was registered (no normalisation of any kind; the caller passes the rendezvous nonce text
+     as it received it). *)
+  Definition respond_trace (a : rargs) (o : routcome) (mid : list saction) : list saction :=
+    match o with
+    | RoErr _ => []
+    | RoDup => [SAdd (ra_id a) (ra_meta a)]
+    | RoWait w =>
+        SAdd (ra_id a) (ra_meta a) :: mid ++
+        match w with WEvent => [STake (ra_id a)] | _ => [] end ++ [SRemove (ra_id a)]
+    end.
 
 End Codec.
 
